@@ -157,6 +157,15 @@ def impl_builtin(case):
             h.elaborate(u)
     except Exception as ex:  # noqa
         return {"build_error": common.errstr(ex)}
+    # earlier generator calls over the very same unit object, in the same process: they leave the unit as it was
+    for b4 in case.get("before", []):
+        try:
+            if b4["gen"] == "Wrapper":
+                Wrapper(u)
+            else:
+                Series(unit=u, nser=b4["n"], conns=(b4["first"], b4["second"]))
+        except Exception:  # noqa — what they return or raise is judged when they are the case themselves
+            pass
     try:
         if case["gen"] == "Wrapper":
             m = Wrapper(u)
@@ -379,6 +388,18 @@ def corpus():
         out.append({"unit": {"design": copy.deepcopy(u)}, "gen": "Series", "n": 2, "first": "b", "second": "a", "by": by, "pre_elab": False})
     for gen, n in (("Series", 1), ("Wrapper", 1), ("Series", 2)):
         out.append({"unit": {"design": copy.deepcopy(u)}, "gen": gen, "n": n, "first": "a", "second": "b", "by": "name", "pre_elab": False, "unit_generated": True})
+    # several generator calls over one (fresh / already elaborated) unit in one process: the later ones see the unit as the first did
+    for pre in (False, True):
+        for gen, n, first, second in (("Wrapper", 1, "a", "b"), ("Series", 2, "b", "a"), ("Series", 3, "a", "b")):
+            out.append({"unit": {"design": copy.deepcopy(u)}, "gen": gen, "n": n, "first": first, "second": second, "by": "name", "pre_elab": pre,
+                        "before": [{"gen": "Series", "n": 3, "first": "a", "second": "b"}, {"gen": "Series", "n": 2, "first": "b", "second": "a"}, {"gen": "Wrapper"}]})
+    # a unit that holds a bundle instance of its own, inside (no port): the generated module exposes the unit's ports, not its insides
+    u3 = copy.deepcopy(u)
+    u3["modules"][0]["bundles"].append({"n": "mid", "of": "B19", "port": False})
+    u3["modules"][0]["insts"].append({"n": "r3", "of": copy.deepcopy(gen_design.LEAVES[3]), "conns": [["p", {"k": "bref", "root": "mid", "path": ["x"]}], ["n", {"k": "bref", "root": "mid", "path": ["y"]}]]})
+    for pre in (False, True):
+        for gen, n in (("Wrapper", 1), ("Series", 1), ("Series", 3)):
+            out.append({"unit": {"design": copy.deepcopy(u3)}, "gen": gen, "n": n, "first": "a", "second": "b", "by": "name", "pre_elab": pre})
     # more than ten units (units_10 sorts before units_2), over a primitive and over a module
     out.append({"unit": {"leaf": copy.deepcopy(gen_design.LEAVES[3])}, "gen": "Series", "n": 12, "first": "p", "second": "n", "by": "name", "pre_elab": False})
     out.append({"unit": {"leaf": copy.deepcopy(gen_design.LEAVES[5])}, "gen": "MosStack", "n": 11, "first": "d", "second": "s", "by": "name", "pre_elab": False})
